@@ -274,7 +274,12 @@ type c18Case struct {
 }
 
 // c18Check runs one case through FromText/ToWire/ToText and through a B line of the codec.
-func c18Check(c c18Case) string {
+func c18Check(c c18Case) (msg string) {
+	defer func() {
+		if e := recover(); e != nil {
+			msg = fmt.Sprintf("list %q makes the parameter code panic: %v", c.Text, e)
+		}
+	}()
 	var pl svcb.ParamList
 	err := pl.FromText([]byte(c.Text))
 	if c.Expect == "reject" {
@@ -460,6 +465,12 @@ func c18Malformed() []c18Case {
 		mk("alpn=h2;port=443;", "lenient", "trailing delimiter", alpnH2, port),
 		mk("alpn=h2;;", "lenient", "trailing delimiters", alpnH2),
 		mk("alpn=h2;port=443;;mandatory=alpn", "lenient", "empty element before mandatory", alpnH2, port, c18Param{Key: 0, Vals: []string{"alpn"}}),
+		mk(";alpn=h2;mandatory=alpn", "lenient", "leading empty element, mandatory last", alpnH2, c18Param{Key: 0, Vals: []string{"alpn"}}),
+		mk(";mandatory=alpn;alpn=h2", "lenient", "leading empty element, mandatory first", alpnH2, c18Param{Key: 0, Vals: []string{"alpn"}}),
+		mk(";;mandatory=port;port=443;alpn=h2", "lenient", "two leading empty elements", alpnH2, port, c18Param{Key: 0, Vals: []string{"port"}}),
+		mk("port=443;;mandatory=alpn;no-default-alpn=", "reject", "mandatory names a missing key (after an empty element)"),
+		mk("alpn=h2;;mandatory=port;ipv4hint=0.1.0.1", "reject", "mandatory names a missing key (after an empty element)"),
+		mk(";mandatory=port;alpn=h2", "reject", "mandatory names a missing key (after a leading empty element)"),
 	}
 }
 
